@@ -44,6 +44,7 @@ type coll struct {
 	src, tgt [][2]string // (vchannel, pchannel)
 	parts    map[string]int64
 	dropped  bool
+	waitv    map[string]bool // source virtual channels whose handler waits for a downstream channel when the collection is started
 }
 
 type smsg struct {
@@ -71,6 +72,8 @@ type label struct {
 	msgs    []smsg
 	answers []map[string]int64 // nil entry = failure
 	ids     []int64
+	ns, nt  int    // config: the channel counts the manager is created with
+	wakes   []string // start: virtual channels of a waiting handler that start reading because this collection forwards a channel
 	point   string // park: the scheduling point (max | lock | send) the pack is held at; resume: spch names the handler
 }
 
@@ -164,6 +167,8 @@ func clabelCoq(l label) string {
 
 func labelCoq(l label) string {
 	switch l.kind {
+	case "config":
+		return fmt.Sprintf("(Config %s %s)", cq.Ni(l.ns), cq.Ni(l.nt))
 	case "start":
 		return fmt.Sprintf("(StartColl {| ci_id := %s; ci_name := %s; ci_tid := %s; ci_src := %s; ci_tgt := %s; ci_parts := %s; ci_dropped := %s |})",
 			cq.Z(l.c.id), cq.Str(l.c.name), cq.Z(l.c.tid), pairsCoq(l.c.src), pairsCoq(l.c.tgt), pmapCoq(l.c.parts), cq.Bool(l.c.dropped))
@@ -435,7 +440,12 @@ func (s *sys) apply(l label) {
 		// the shards register from their own goroutines
 		dl := time.Now().Add(5 * time.Second)
 		for _, p := range l.c.src {
-			for !s.disp.Registered(p[0]) && time.Now().Before(dl) {
+			for !l.c.waitv[p[0]] && !s.disp.Registered(p[0]) && time.Now().Before(dl) {
+				time.Sleep(time.Millisecond)
+			}
+		}
+		for _, v := range l.wakes {
+			for !s.disp.Registered(v) && time.Now().Before(dl) {
 				time.Sleep(time.Millisecond)
 			}
 		}
@@ -537,8 +547,13 @@ func runCase(out *cq.Out, retries int, labels []label, tag string) {
 	disp := rfake.NewDispatch()
 	tg := rfake.NewTarget()
 	rm, _ := meta.NewReplicateMetaImpl(&rfake.MemStore{})
+	ns, nt := 0, 0
+	if len(labels) > 0 && labels[0].kind == "config" {
+		ns, nt = labels[0].ns, labels[0].nt
+	}
 	mgr, err := reader.NewReplicateChannelManager(disp, rfake.Factory{}, tg, config.ReaderConfig{
 		MessageBufferSize: 64, TTInterval: 3600000, Retry: config.RetrySettings{RetryTimes: retries, InitBackOff: 1, MaxBackOff: 1}, ReplicateID: rid,
+		SourceChannelNum: ns, TargetChannelNum: nt,
 	}, rfake.MetaOp{DefaultMetaOp: &api.DefaultMetaOp{}}, rm, nil, "milvus")
 	if err != nil {
 		panic(err)
@@ -598,9 +613,9 @@ func runSched(out *cq.Out, labels []label, tag string) {
 	ctx, cancel := context.WithCancel(context.Background())
 	mgr.SetCtx(ctx)
 	s := &sys{mgr: mgr, disp: disp, target: tg, ctx: util.GetCtxWithTaskID(ctx, "task-"+rid), rid: rid, tpchs: map[string]bool{}, src: map[uint64]msgstream.TsMsg{}, held: map[string]*msgstream.MsgPack{}}
-	var lt []string
+	lt := []string{"(CSeq (Config 2%N 1%N))"}
 	for i, l := range labels {
-		s.cur = i
+		s.cur = i + 1
 		s.apply(l)
 		lt = append(lt, clabelCoq(l))
 		out.Count("label=" + l.kind)
